@@ -1,5 +1,13 @@
 #!/usr/bin/env python3
 """MANIFEST.setup_cmd: regenerate Generated/*.lean and Driver/Main.lean from /repo, then build everything offline."""
+import os as _os
+import sys as _sys
+
+if _os.path.exists("/venv/bin/python") and _os.path.realpath(_sys.executable) != _os.path.realpath("/venv/bin/python") and not _os.environ.get("MXLVERIF_NO_REEXEC"):
+    # the repository's sources use Python 3.12 syntax; parse them with the interpreter that runs them
+    _os.environ["MXLVERIF_NO_REEXEC"] = "1"
+    _os.execv("/venv/bin/python", ["/venv/bin/python", *_sys.argv])
+
 import subprocess
 import sys
 from pathlib import Path
